@@ -213,11 +213,11 @@ theorem phase_inv (multi : List Cmd) (o : Opt) (cache hasInit : Bool) (attempts 
     (resOK_mono multi _ _ _ h.res s2) h.pend
   exact ⟨⟨g1, g2⟩, s2⟩
 
-theorem doRetry_inv (multi : List Cmd) (o : Opt) (cache hasInit : Bool) (attempts : Nat) (cc : Conn) (re : Retry)
+theorem doRetryCore_inv (multi : List Cmd) (o : Opt) (cache hasInit : Bool) (attempts : Nat) (cc : Conn) (re : Retry)
     (h1 : EntriesOK multi re.cmds) (h2 : EntriesOK multi re.asks) (a : Acc) (w : World) (h : Inv multi a w) :
-    Inv multi (doRetry o cache hasInit attempts cc re a w).1 (doRetry o cache hasInit attempts cc re a w).2 ∧
-    (∀ x ∈ w.replies, x ∈ (doRetry o cache hasInit attempts cc re a w).2.replies) := by
-  unfold doRetry
+    Inv multi (doRetryCore o cache hasInit attempts cc re a w).1 (doRetryCore o cache hasInit attempts cc re a w).2 ∧
+    (∀ x ∈ w.replies, x ∈ (doRetryCore o cache hasInit attempts cc re a w).2.replies) := by
+  unfold doRetryCore
   simp only
   by_cases hc : re.cmds ≠ []
   · rw [if_pos hc]
@@ -233,6 +233,26 @@ theorem doRetry_inv (multi : List Cmd) (o : Opt) (cache hasInit : Bool) (attempt
     · rw [if_pos ha]
       exact phase_inv multi o cache hasInit attempts cc .multi _ re.asks h2 a w h
     · rw [if_neg ha]; exact ⟨h, fun x hx => hx⟩
+
+theorem doRetry_fst (o : Opt) (cache hasInit : Bool) (attempts : Nat) (cc : Conn) (re : Retry) (a : Acc) (w : World) :
+    (doRetry o cache hasInit attempts cc re a w).1 = (doRetryCore o cache hasInit attempts cc re a w).1 ∧
+    (doRetry o cache hasInit attempts cc re a w).2.replies = (doRetryCore o cache hasInit attempts cc re a w).2.replies := by
+  unfold doRetry
+  simp only
+  split
+  · exact ⟨rfl, rfl⟩
+  · exact ⟨rfl, rfl⟩
+
+theorem doRetry_inv (multi : List Cmd) (o : Opt) (cache hasInit : Bool) (attempts : Nat) (cc : Conn) (re : Retry)
+    (h1 : EntriesOK multi re.cmds) (h2 : EntriesOK multi re.asks) (a : Acc) (w : World) (h : Inv multi a w) :
+    Inv multi (doRetry o cache hasInit attempts cc re a w).1 (doRetry o cache hasInit attempts cc re a w).2 ∧
+    (∀ x ∈ w.replies, x ∈ (doRetry o cache hasInit attempts cc re a w).2.replies) := by
+  obtain ⟨e1, e2⟩ := doRetry_fst o cache hasInit attempts cc re a w
+  obtain ⟨i, m⟩ := doRetryCore_inv multi o cache hasInit attempts cc re h1 h2 a w h
+  refine ⟨⟨?_, ?_⟩, ?_⟩
+  · rw [e1, e2]; exact i.res
+  · rw [e1]; exact i.pend
+  · rw [e2]; exact m
 
 theorem runRound_inv (multi : List Cmd) (o : Opt) (cache hasInit : Bool) (attempts : Nat) :
     ∀ (p : Pending) (a : Acc) (w : World), PendOK multi p → Inv multi a w →
